@@ -26,7 +26,7 @@ def ensure(name):
         sh(f'rsync -a --delete --exclude target /verif/{d}/ {mv}/{d}/')
     for f in ('check', 'known_findings.json'):
         shutil.copy(f'/verif/{f}', f'{mv}/{f}')
-    for f in ('tasksim/Cargo.toml', 'tasksim/shadow/eyeball-im/Cargo.toml', 'tasksim/shadow/eyeball-im-util/Cargo.toml', 'threadsim/shadow/eyeball/Cargo.toml'):
+    for f in ('tasksim/Cargo.toml', 'tasksim/shadow/eyeball-im/Cargo.toml', 'tasksim/shadow/eyeball-im-util/Cargo.toml', 'threadsim/Cargo.toml', 'threadsim/shadow/eyeball/Cargo.toml'):
         p = f'{mv}/{f}'; s = open(p).read().replace('/repo/', wt + '/'); open(p, 'w').write(s)
     return wt, mv
 def main():
